@@ -30,14 +30,18 @@ SPEC = {
         'project_valid_counterexample', 'project_fixes_valid_counterexample', 'project_zero_counterexample',
         # makeRandomProbability
         'spacings_sum', 'spacings_nonneg', 'randomProbability_valid', 'randomProbability_isProb', 'randomProbability_perm_invariant',
+        # the driver's clause for the inverse-CDF samplers is sound and complete; sparse isProbability overload
+        'intervalSpec_iff', 'intervalSpec_iff_sample', 'isProbSparse_of_isProb', 'isProbSparse_accepts_negative',
         # alias table: sampling rule, checker, refutation for the constructor as it is
         'alias_preimage', 'alias_in_range', 'aliasSample_in_range', 'alias_table_sound', 'alias_table_sound_exact',
         'vose_current_example_uniform', 'vose_current_example_reprocessed', 'vose_correct_counterexample',
         'vose_correct_counterexample_below_avg',
         # the constructor as it is never produces an out-of-range alias (partial); any in-range table has total mass one
         'vose_current_lengths', 'vose_current_alias_in_range', 'aliasMass_total',
+        # model fidelity: the fuel of the modelled loops never cuts them short
+        'vose_current_loop_exits', 'vose_fixed_loop_exits', 'vose_current_sweep_fuel',
         # the repaired constructor: full-strength correctness for every valid distribution of every length
-        'vose_correct', 'vose_correct_tableOk', 'vose_fixed_lengths', 'vose_fixed_alias_in_range', 'vose_correct_isProb_in_range',
+        'vose_correct', 'vose_correct_slack', 'vose_correct_valid', 'vose_mass_error_sign_and_sum', 'vose_correct_tableOk', 'vose_fixed_lengths', 'vose_fixed_alias_in_range', 'vose_correct_isProb_in_range',
         # the property stated literally: SelectsWithProb f j q := the draws in [0,1) mapped to j are a finite disjoint union of half-open
         # intervals of total length q; q is unique (selects_unique)
         'dense_cert', 'dense_selects_exact', 'dense_selects_valid', 'dense_selects_out_of_range', 'alias_cert', 'vose_selects',
